@@ -250,10 +250,12 @@ func handleSINTERSTORE(params internal.HandlerFuncParams) ([]byte, error) {
 	keyExists := params.KeysExist(params.Context, keys.ReadKeys)
 
 	var sets []*Set
+	missingKey := false
 
 	for key, exists := range keyExists {
 		if !exists {
-			return []byte(":0\r\n"), err
+			missingKey = true
+			continue
 		}
 		set, ok := params.GetValues(params.Context, []string{key})[key].(*Set)
 		if !ok {
@@ -263,7 +265,12 @@ func handleSINTERSTORE(params internal.HandlerFuncParams) ([]byte, error) {
 		sets = append(sets, set)
 	}
 
-	intersect, _ := Intersection(0, sets...)
+	// A key that does not exist is an empty set, so the intersection is empty.
+	// The empty result still replaces whatever the destination held.
+	intersect := NewSet([]string{})
+	if !missingKey {
+		intersect, _ = Intersection(0, sets...)
+	}
 	destination := keys.WriteKeys[0]
 
 	if err = params.SetValues(params.Context, map[string]interface{}{destination: intersect}); err != nil {
